@@ -187,7 +187,7 @@ func (c *Ctx) kernelOf(fn *ssa.Function, key string, inline ...string) *Result {
 	// paths whose integer facts contradict each other are not paths of the program
 	kept := res.Terms[:0]
 	for _, t := range res.Terms {
-		if newBounds(t, -1).inconsistent() {
+		if newBounds(t, -1).inconsistent() || timeInconsistent(t) {
 			res.Pruned++
 			continue
 		}
